@@ -27,7 +27,7 @@ Fixpoint base_res (r : iref) : option str :=
 
 Fixpoint fresh (r : iref) : Prop :=
   match r with
-  | RCow _ p _ copied => copied = false /\ fresh p
+  | RCow _ p _ copied => copied = None /\ fresh p
   | _ => True
   end.
 
